@@ -30,7 +30,7 @@ INTRINSICS = [
     ("dabs", "(y)", "f2003", "dabs", True),
     ("dsin", "(y)", "f2003", "sin", False),
     ("max", "(y, 2)", "f2003", "max", True),
-    ("norm2", "(w)", "f2008", "norm2", True),
+    ("sum", "(w)", "f2003", "sum", True),  # (fparser's intrinsic table is the F2003 one: NORM2 etc. are ordinary names to it, see C17)
     ("amax1", "(y, 2.0)", "f2003", "amax1", True),
     ("max", "(y, 2)", "f2003", "amax1", False),
     ("size", "(w, 1)", "f2003", "size", True),
